@@ -35,8 +35,9 @@ theorem setSeqNum_in_good (n : Int) : OkRel g (Good om) (setSeqNum none (some n)
   intro c a c' e h _
   rw [setSeqNum_in_apply] at h
   split at h
-  · cases h
-    refine ⟨fun _ => ?_, Int.le_refl _, NewWritesBelow.nil _, Or.inr (Or.inl ?_), rfl, rfl, rfl⟩
+  · rename_i hn
+    cases h
+    refine ⟨fun _ => ?_, Int.le_refl _, NewWritesBelow.nil _, Or.inr (Or.inl ?_), ⟨rfl, rfl, rfl⟩, fun _ => hn⟩
     · show c.sess.nextOut - 1 + 1 = c.sess.nextOut; omega
     · show n - 1 + 1 = n; omega
   · cases h
@@ -52,6 +53,10 @@ theorem ownSeq_logout (text : String) : ownSeq (logoutMsg text) = false := by
   apply ownSeq_mk'
   · simp [mLogout, mSequenceReset]
   · split <;> simp [Msg.lookup, tText, tPossDupFlag]
+
+section walk
+attribute [local irreducible] disconnect stateSet sendMsg setSeqNum M.bind' M.pure' M.get M.modify M.emit M.throw
+  M.liftE M.assert M.int
 
 theorem sendTestReq_good (env : Env) : OkRel g (Good om) (sendTestReq env) := by
   unfold sendTestReq
@@ -88,5 +93,7 @@ theorem processHeartbeat_good (env : Env) (m : Msg) : OkRel g (Good om) (process
 theorem processSeqreset_good (m : Msg) : OkRel g (Good om) (processSeqreset m) := by
   unfold processSeqreset
   ok_tac [setSeqNum_in_good]
+
+end walk
 
 end AsyncFix.Restart
